@@ -105,4 +105,52 @@ for i in range(job['twins']):
     b, lb, ib = scenario(False, seed)
     out['twins'].append({'seed': seed, 'same': a == b, 'log': la, 'inside': ia and ib,
                          'diff': None if a == b else {k: [a[k][:300], b[k][:300]] for k in a if a[k] != b[k]}})
+
+
+# (3) nested: a schema-generated, xsd-checked element whose children were supplied in a shuffled order, serialised alone and inside
+#     unchecked ancestors (one and two levels): the subtree must read the same in all three
+def build(node):
+    import impl_runner as R
+    cls = R.class_of(node['tag'])
+    kw = {}
+    for n, txt, py in node['attrs']:
+        kw[n.split(':')[-1].replace('-', '_')] = eval(py)
+    e = cls(eval(node['py']), **kw) if node['py'] is not None else cls(**kw)
+    for k in node['kids']:
+        e.add_child(build(k))
+    return e
+
+
+nan, inf = float('nan'), float('inf')
+out['nested'] = []
+if job.get('nested'):
+    import impl_runner as R
+    R.init()
+    norm = lambda x: ''.join(x.split())
+    for node in job['nested']:
+        rec = {}
+        try:
+            e = build(node)
+            alone = ts(e)
+        except Exception as ex:
+            rec['skip'] = type(ex).__name__
+            out['nested'].append(rec)
+            continue
+        try:
+            w1 = XMLMeasure(number='1', xsd_check=False)
+            w1.add_child(e)
+            in1 = ts(w1)
+            w2 = XMLPart(id='P1', xsd_check=False)
+            w2.add_child(w1)
+            in2 = ts(w2)
+            again = ts(e)
+            rec['inside1'] = norm(alone) in norm(in1)
+            rec['inside2'] = norm(alone) in norm(in2)
+            rec['stable'] = norm(again) == norm(alone)      # indentation follows the nesting level: compared without white space
+            if not (rec['inside1'] and rec['inside2'] and rec['stable']):
+                rec['alone'] = alone[:600]
+                rec['in'] = in1[:800]
+        except Exception as ex:
+            rec['exc'] = type(ex).__name__ + ':' + str(ex)[:100]
+        out['nested'].append(rec)
 json.dump(out, sys.stdout)
